@@ -202,6 +202,7 @@ def run(F, ck, tier):
             ck.ob('R18.3', key, False, '%s uses the proof in %s() %s: a malformed proof reaches this call unvalidated' % (fn.qual, e.q, 'before the shape validator runs' if validated else '(there is no validation at all on this path)'), e.loc())
     canonical_boundary(F, ck)
     assert_sites(F, ck, C)
+    unsigned_sub_discharge(F, ck)
     chunk_sites(F, ck, C)
     if tier == 'thorough':
         census(F, ck, C)
@@ -266,6 +267,44 @@ def canonical_boundary(F, ck):
     ok = d == {('n',): 1, ('ORDER',): -1}
     ck.ob('R18.8', 'read_field.canonical', ok, 'errs exactly when n - ORDER >= 0' if ok else
           'Read::read_field errs when %s >= 0 instead of n - ORDER >= 0: the word equal to the field order (or other non-canonical words) is passed to from_canonical_u64, which panics in debug builds and accepts a second encoding of the same element in release builds' % poly.show(d), n.get('s'))
+
+
+def unsigned_sub_discharge(F, ck):
+    """R18.9: StarkProof::recover_degree_bits subtracts two quantities of which one comes from the proof (a Merkle path length);
+    the validator that runs before it must have compared exactly those two quantities."""
+    from . import poly
+    from .facts import walk
+    ck.rule('R18.9', 'the unsigned subtraction in recover_degree_bits (cap_height + path length - rate_bits) is discharged by an earlier Err-guard of the STARK shape validator with exactly that difference >= 0 (polynomials over type-qualified fields)')
+    E = poly.Ev(F)
+    rec = [f for f in F.find('StarkProof::recover_degree_bits', crate='starky') if f.body is not None]
+    val = [f for f in F.find('starky::verifier::validate_proof_shape', crate='starky') if f.body is not None] or [f for f in F.fns.values() if f.crate == 'starky' and f.name == 'validate_proof_shape' and f.body is not None]
+    if not rec or not val:
+        ck.ob('R18.9', 'anchor', False, 'ANCHOR-MISSING StarkProof::recover_degree_bits / starky validate_proof_shape')
+        return
+    subs = []
+    for f in rec[:1]:
+        env = {}
+        for x in walk(f.body):
+            if x.get('k') == 'Let' and 'i' in x and x['p'].get('k') == 'Bind':
+                try:
+                    env[x['p']['id']] = E.ev(f, x['i'], env, 3)
+                except poly.Unknown as ex:
+                    env[x['p']['id']] = ex
+        for x in walk(f.body):
+            if x.get('k') == 'Bin' and x.get('op') == 'Sub':
+                try:
+                    subs.append(poly.add(E.ev(f, x['l'], env, 3), E.ev(f, x['r'], env, 3), -1))
+                except poly.Unknown:
+                    subs.append(None)
+    if len(subs) != 1 or subs[0] is None:
+        ck.ob('R18.9', 'recover_degree_bits.sub', False, 'ANCHOR-MISSING: recover_degree_bits no longer consists of one evaluable subtraction (%d found)' % len(subs), '%s:%d' % (rec[0].file, rec[0].line))
+        return
+    diffs = poly.cmp_diffs(E, val[0])
+    okd = any(d == subs[0] for d, n in diffs)
+    ck.ob('R18.9', 'recover_degree_bits.sub', okd, 'validator guard: %s >= 0' % poly.show(subs[0]) if okd else
+          'UNDERFLOW ON A MALFORMED PROOF: recover_degree_bits computes %s as an unsigned subtraction, but the validator that runs before it has no guard with exactly that difference >= 0 (its comparisons: %s): '
+          'a proof with a short first Merkle path makes verify_stark_proof panic (debug) or continue with a huge trace length (release)' % (poly.show(subs[0]), [poly.show(d) for d, n in diffs][:6]),
+          '%s:%d' % (val[0].file, val[0].line))
 
 
 def assert_sites(F, ck, C):
